@@ -97,6 +97,8 @@ structure Resp where
   /-- interleaved channel in the Transport header of a successful TCP SETUP -/
   chan : Option Nat := none
   cseq : Option Nat := none
+  /-- `Public` header of an OPTIONS response -/
+  pub : Option (List Method) := none
   deriving Repr, Inhabited, DecidableEq
 
 structure Session where
@@ -164,7 +166,15 @@ def findFreeChan (chans : List Nat) : Nat := findFreeFrom chans (2 * chans.lengt
 
 def isStreaming (s : SState) : Bool := s == .play || s == .record
 
-def doOptions (ss : Session) : Session Ã— Resp := (ss, { status := ok })
+/-- the `Public` header: what the application's handler subset lets the server do -/
+def publicMethods (h : Handlers) : List Method :=
+  (if h.describe then [Meth.describe] else []) ++ (if h.announce then [Meth.announce] else []) ++
+  (if h.setup then [Meth.setup] else []) ++ (if h.play then [Meth.play] else []) ++
+  (if h.record then [Meth.record] else []) ++ (if h.pause then [Meth.pause] else []) ++
+  [Meth.getParameter] ++ (if h.setParameter then [Meth.setParameter] else []) ++ [Meth.teardown]
+
+def doOptions (cfg : Config) (ss : Session) : Session Ã— Resp :=
+  (ss, { status := ok, pub := some (publicMethods cfg.h) })
 
 def doAnnounce (ss : Session) (r : Request) : Session Ã— Resp :=
   if ss.state != .initial then bad ss
@@ -191,27 +201,33 @@ def setupChecks (ss : Session) (r : Request) (t : TrAlt) : Option Resp :=
   else if isRec && t.mode != 2 then some badResp
   else none
 
+/-- SETUP: does the request URL name a media?  Readers: `findMediaByTrackID` in the stream's
+description; publishers: `findMediaByURL` in the announced description. -/
+def mediaFound (cfg : Config) (ss : Session) (r : Request) (i : Nat) : Bool :=
+  if ss.state == .preRecord then r.path == ss.path && i < ss.nAnn else i < cfg.nMedias
+
+/-- SETUP: `tcpChannel` of the new media (0 for UDP / multicast) -/
+def tcpChan (ss : Session) (t : TrAlt) : Nat :=
+  if t.proto == .tcp then (if t.il == 1 then t.ilA else findFreeChan ss.chans) else 0
+
 /-- SETUP after `OnSetup` answered 200: media lookup and bookkeeping. -/
 def setupMedia (cfg : Config) (ss : Session) (r : Request) (t : TrAlt) : Session Ã— Resp :=
-  let isRec := ss.state == .preRecord
   match r.track with
   | none => bad ss        -- record: the URL matches no announced media
   | some i =>
-    let found := if isRec then r.path == ss.path && i < ss.nAnn else i < cfg.nMedias
-    if !found then bad ss
+    if !mediaFound cfg ss r i then bad ss
     else if ss.medias.contains i then bad ss
     else
-      let ch := if t.proto == .tcp then (if t.il == 1 then t.ilA else findFreeChan ss.chans) else 0
       ({ ss with
           transport := some t.proto
           medias := ss.medias ++ [i]
-          chans := ss.chans ++ [ch]
+          chans := ss.chans ++ [tcpChan ss t]
           state := if ss.state == .initial then .prePlay else ss.state
           path := if ss.state == .initial then r.path else ss.path },
        -- the handler's error survives only in `prePlay`: in the other two states the variable
        -- is overwritten (`err = stream.readerAdd(â€¦)`, `localSSRCs, err = generateLocalSSRCs(â€¦)`)
        { status := ok, err := if ss.state == .prePlay then hErrOf r else .none,
-         chan := if t.proto == .tcp then some ch else none })
+         chan := if t.proto == .tcp then some (tcpChan ss t) else none })
 
 def doSetup (cfg : Config) (ss : Session) (r : Request) : Session Ã— Resp :=
   if !(ss.state == .initial || ss.state == .prePlay || ss.state == .preRecord) then bad ss
@@ -276,7 +292,7 @@ def doSetParameter (cfg : Config) (ss : Session) (r : Request) : Session Ã— Resp
 def sessInner (cfg : Config) (ss : Session) (c : Nat) (r : Request) : Session Ã— Resp :=
   if ss.tcpConn.isSome && ss.tcpConn != some c then bad ss
   else match r.method with
-    | .options => doOptions ss
+    | .options => doOptions cfg ss
     | .announce => doAnnounce ss r
     | .setup => doSetup cfg ss r
     | .play => doPlay ss c r
@@ -392,7 +408,8 @@ def connInner (cfg : Config) (srv : Server) (cn : Conn) (r : Request) : Server Ã
   else if r.method != .options && r.star then (srv, errResp badRequest)
   else match r.method with
     | .options =>
-      if r.sid != .none then inSession cfg srv cn r false else (srv, { status := ok })
+      if r.sid != .none then inSession cfg srv cn r false
+      else (srv, { status := ok, pub := some (publicMethods cfg.h) })
     | .describe =>
       -- with status 200 the application returns its stream: `desc, err = stream.descForDescribe(â€¦)`
       -- overwrites the handler's error
